@@ -706,6 +706,10 @@ func (rt *runtime) toValue(value interface{}) Value {
 			typ := val.Type()
 
 			return objectValue(rt.newNativeFunction(name, file, line, func(c FunctionCall) Value {
+				// The function object may have been cloned into another runtime (Otto.Copy):
+				// convert arguments and results with the runtime of the call.
+				rt := c.runtime
+
 				nargs := typ.NumIn()
 
 				if len(c.ArgumentList) != nargs {
